@@ -8,7 +8,7 @@
    `expand` says which column an encoding denotes; Proofs/SpansRleProofs.v proves that the functions
    below return what the statement-level models of Model/Spans.v return on the expanded column. *)
 From Coq Require Import ZArith List Bool.
-From EV Require Import Res Arr Spans.
+From EV Require Import Res Arr Spans SpansSpec.
 Import ListNotations.
 Open Scope Z_scope.
 
@@ -51,3 +51,51 @@ End Rle.
 Definition spans_of_rle_2 {A B} (neqbA:A -> A -> bool) (neqbB:B -> B -> bool)
   (r0:list (A * Z)) (r1:list (B * Z)) : res (list Z) :=
   get_spans_for_2_fields_by_spans (spans_of_rle neqbA r0) (spans_of_rle neqbB r1).
+
+(* ---- per-span reductions of a run-length encoded column ------------------------------------------- *)
+(* The reductions are answered span by span on the encoding of the rows of the span (`rle_slice`), from
+   the values of its non-empty runs (`rle_vals`) with the reference functions of Spec/SpansSpec.v:
+   no row is ever materialised.  Proofs/SpansRleReduce.v proves the results equal to the reference
+   reductions (and, on valid spans, to the statement-level kernels) on the expanded column. *)
+Section RleReduce.
+Context {A:Type}.
+
+(* the encoding without its first k rows / of its first k rows *)
+Fixpoint rle_skip (k:Z) (rl:list (A * Z)) : list (A * Z) :=
+  match rl with
+  | [] => []
+  | (v, n) :: t => if k <=? 0 then rl
+                   else if n <=? k then rle_skip (k - Z.max 0 n) t else (v, n - k) :: t
+  end.
+Fixpoint rle_take (k:Z) (rl:list (A * Z)) : list (A * Z) :=
+  match rl with
+  | [] => []
+  | (v, n) :: t => if k <=? 0 then []
+                   else if n <=? k then (v, n) :: rle_take (k - Z.max 0 n) t else [(v, k)]
+  end.
+(* rows a .. b-1 *)
+Definition rle_slice (rl:list (A * Z)) (a b:Z) : list (A * Z) := rle_take (b - a) (rle_skip a rl).
+(* the values of the non-empty runs, in order *)
+Fixpoint rle_vals (rl:list (A * Z)) : list A :=
+  match rl with
+  | [] => []
+  | (v, n) :: t => if n <=? 0 then rle_vals t else v :: rle_vals t
+  end.
+(* row number of the first row whose value satisfies p (the row count when none) *)
+Fixpoint rle_find (p:A -> bool) (rl:list (A * Z)) : Z :=
+  match rl with
+  | [] => 0
+  | (v, n) :: t => if n <=? 0 then rle_find p t else if p v then 0 else n + rle_find p t
+  end.
+
+Variable ltb : A -> A -> bool.
+Variable d : A.
+Definition rle_reduce {R} (f:Z -> list (A * Z) -> R) (sp:list Z) (rl:list (A * Z)) : list R :=
+  map (fun ab => f (fst ab) (rle_slice rl (fst ab) (snd ab))) (span_pairs sp).
+Definition rle_first_ref := rle_reduce (fun _ r => nthd d (rle_vals r) 0).
+Definition rle_last_ref := rle_reduce (fun _ r => nthd d (rle_vals r) (len (rle_vals r) - 1)).
+Definition rle_min_ref := rle_reduce (fun _ r => min_spec ltb d (rle_vals r)).
+Definition rle_max_ref := rle_reduce (fun _ r => max_spec ltb d (rle_vals r)).
+Definition rle_index_of_min_ref := rle_reduce (fun a r => a + rle_find (is_least ltb (rle_vals r)) r).
+Definition rle_index_of_max_ref := rle_reduce (fun a r => a + rle_find (is_greatest ltb (rle_vals r)) r).
+End RleReduce.
